@@ -36,25 +36,22 @@ let run_sacn wire ip univ steps =
     | Some (dt, wopt, p) ->
       now := !now + ios dt;
       let before = List.length !st.u_srcs in
-      let (st', oc) = (match wopt with
-                       | Some w -> handle_wire c (n_of_int !now) !st w
-                       | None -> handle c (n_of_int !now) !st p) in
       (* a framing PDU that is not a data PDU is no packet for the text either *)
       let is_data = (match wopt with Some w -> w.w_fvec = vECTOR_E131_DATA | None -> true) in
+      let kk = { k_st = !st; k_T = !tT; k_D = !tD; k_frozen = !frozen } in
+      (* G_cap is evaluated on the text state before the packet *)
+      if is_data && not (gcap c (n_of_int !now) !tT !tD p) then cap := true;
+      let (((k', oc), vN), d4) = cstep c (n_of_int !now) kk is_data p in
+      let st' = k'.k_st and t' = k'.k_T and d' = k'.k_D in
+      (match wopt with
+       | Some w -> if handle_wire c (n_of_int !now) !st w <> (st', oc) then failwith "cstep/handle_wire"
+       | None -> ());
       st := st';
       let after = List.length st'.u_srcs in
       if after > !maxsrc then maxsrc := after;
-      let keep = (match oc with ODiscard -> true | _ -> false) in
-      let merged = (match oc with OMerge (_, _) -> true | _ -> false) in
-      let rx_acc = (match oc with OMerge (Some _, _) -> true | _ -> false) in
-      let ((t', d'), d4) = if is_data then xstep c (n_of_int !now) keep rx_acc !tT !tD p
-                            else ((!tT, !tD), false) in
       if d4 && not (List.mem 4 !verdicts) then verdicts := 4 :: !verdicts;
-      tT := t'; tD := d';
-      if over_cap (n_of_int !now) t' d' then cap := true;
-      if merged then frozen := text_out_unshadowed (n_of_int !now) t' d';
-      let v = if !cap then 0
-              else int_of_n (verdict merged !frozen (n_of_int !now) t' d' st'.u_buf) in
+      tT := t'; tD := d'; frozen := k'.k_frozen;
+      let v = if !cap then 0 else int_of_n vN in
       if not (List.mem v !verdicts) then verdicts := v :: !verdicts;
       if Sys.getenv_opt "C08_DEBUG" <> None then
         prerr_endline (Printf.sprintf "step %d now=%d v=%d buf=%s text=%s unsh=%s frozen=%s T=[%s] D=[%s]" i !now v
